@@ -246,6 +246,7 @@ static size_t safec_ntoa_format(out_fct_type out, const char *funcname,
                                 char *buf, size_t len, bool negative,
                                 unsigned int base, unsigned int prec,
                                 unsigned int width, unsigned int flags) {
+    const size_t digits = len; // the digits of the value itself
     // the precision is the minimum number of digits, left-justified or not
     while ((len < prec) && (len < PRINTF_NTOA_BUFFER_SIZE)) {
         buf[len++] = '0';
@@ -264,10 +265,12 @@ static size_t safec_ntoa_format(out_fct_type out, const char *funcname,
 
     // handle hash
     if (flags & FLAGS_HASH) {
-        if (!(flags & FLAGS_PRECISION) && len &&
+        // make room for the prefix among the padding zeros, never among the
+        // digits of the value
+        if (!(flags & FLAGS_PRECISION) && len > digits &&
             ((len == prec) || (len == width))) {
             len--;
-            if (len && (base == 16U)) {
+            if (len > digits && (base == 16U)) {
                 len--;
             }
         }
@@ -280,7 +283,10 @@ static size_t safec_ntoa_format(out_fct_type out, const char *funcname,
         } else if ((base == 2U) && (len < PRINTF_NTOA_BUFFER_SIZE)) {
             buf[len++] = 'b';
         }
-        if (len < PRINTF_NTOA_BUFFER_SIZE) {
+        // octal: "increases the precision, if and only if necessary, to force
+        // the first digit of the result to be a zero"
+        if (len < PRINTF_NTOA_BUFFER_SIZE &&
+            !(base == 8U && len && buf[len - 1] == '0')) {
             buf[len++] = '0';
         }
     }
@@ -313,8 +319,8 @@ static size_t safec_ntoa_long(out_fct_type out, const char *funcname,
     char buf[PRINTF_NTOA_BUFFER_SIZE];
     size_t len = 0U;
 
-    // no hash for 0 values
-    if (!value) {
+    // no prefix for 0 values (the octal form still forces a zero digit)
+    if (!value && base != 8U) {
         flags &= ~FLAGS_HASH;
     }
 
@@ -343,8 +349,8 @@ static size_t safec_ntoa_long_long(out_fct_type out, const char *funcname,
     char buf[PRINTF_NTOA_BUFFER_SIZE];
     size_t len = 0U;
 
-    // no hash for 0 values
-    if (!value) {
+    // no prefix for 0 values (the octal form still forces a zero digit)
+    if (!value && base != 8U) {
         flags &= ~FLAGS_HASH;
     }
 
